@@ -141,16 +141,17 @@ def ob_threshold(name, N, symmetric, directed, non_local, seq, toggle=False):
                      f"{seq} threshold(s)", "C09|ClimateNetwork|threshold", wit, max_paths=600)
 
 
-def ob_density(name, N, diag, via_setter):
-    """link density request rho: realised <= rho and rho - realised <= ties/(N(N-1))"""
+def ob_density(name, N, diag, via_setter, directed=False):
+    """link density request rho: realised <= rho and rho - realised <= ties/(N(N-1)); directed: asymmetric similarity, all ordered pairs"""
     from pyunicorn.climate import ClimateNetwork
     funcs = ["src/pyunicorn/climate/climate_network.py ClimateNetwork.threshold_from_link_density/set_link_density/__init__"]
-    S, hyps = sym_similarity(N, True, diag)
+    S, hyps = sym_similarity(N, not directed, diag)
     rho = SV(z3.Real("rho"))
     hyps += [rho.v >= 0, rho.v <= 1]
     for i in range(N):
-        for j in range(i + 1, N):
-            hyps += [S[i, j].v >= 0, S[i, j].v <= 1]
+        for j in range(N):
+            if i != j and (directed or i < j):
+                hyps += [S[i, j].v >= 0, S[i, j].v <= 1]
     pairs = [(i, j) for i in range(N) for j in range(N) if i != j]
 
     def harness(ex):
@@ -158,10 +159,10 @@ def ob_density(name, N, diag, via_setter):
         with pe.patched(mods(), patches()):
             grid = make_grid(N)
             if via_setter:
-                net = ClimateNetwork(grid, SymNd(S.copy()), threshold=sx.Fraction(1, 2), silence_level=3)
+                net = ClimateNetwork(grid, SymNd(S.copy()), threshold=sx.Fraction(1, 2), directed=directed, silence_level=3)
                 net.set_link_density(rho)
             else:
-                net = ClimateNetwork(grid, SymNd(S.copy()), link_density=rho, silence_level=3)
+                net = ClimateNetwork(grid, SymNd(S.copy()), link_density=rho, directed=directed, silence_level=3)
             theta = pe._num(net.threshold())
             real = sx.div(sx.total(ite(gt(pe._num(S[i, j]), theta), 1, 0) for (i, j) in pairs), len(pairs))
             ties = sx.div(sx.total(ite(eq(pe._num(S[i, j]), theta), 1, 0) for (i, j) in pairs), len(pairs))
@@ -172,11 +173,12 @@ def ob_density(name, N, diag, via_setter):
 
     def wit(m, lab):
         ev = lambda x: sx.model_value(m, pe._num(x))
-        return {"kind": "density", "S": [[ev(S[i, j]) for j in range(N)] for i in range(N)], "rho": ev(rho), "via_setter": via_setter, "label": lab}
+        return {"kind": "density", "S": [[ev(S[i, j]) for j in range(N)] for i in range(N)], "rho": ev(rho), "via_setter": via_setter, "label": lab,
+                "directed": directed}
     from .C07 import run_paths
     return run_paths(name, hyps, harness, funcs,
-                     f"N={N}, symmetric similarity in [0,1] with diagonal {diag if diag is not None else 'symbolic'}, symbolic density in [0,1]",
-                     f"C09|ClimateNetwork|link-density|diag={diag}", wit, max_paths=6000)
+                     f"N={N}, {'asymmetric (directed network)' if directed else 'symmetric'} similarity in [0,1] with diagonal {diag if diag is not None else 'symbolic'}, symbolic density in [0,1]",
+                     f"C09|ClimateNetwork|link-density|diag={diag}" + ("|directed" if directed else ""), wit, max_paths=6000 if not directed else 40000)
 
 
 def prepare(tier):
@@ -200,6 +202,10 @@ def obligations(tier):
     obs.append((ob_density, dict(name="C09|link density|N=3|unit diagonal", N=3, diag=1, via_setter=False), 3000))
     obs.append((ob_density, dict(name="C09|set_link_density|N=3|unit diagonal", N=3, diag=1, via_setter=True), 3000))
     obs.append((ob_density, dict(name="C09|link density|N=3|zero diagonal (as the mutual-information estimator leaves it)", N=3, diag=0, via_setter=False), 3000))
+    obs.append((ob_density, dict(name="C09|link density|N=2|directed, asymmetric similarity", N=2, diag=1, via_setter=False, directed=True), 3000))
+    obs.append((ob_density, dict(name="C09|set_link_density|N=2|directed, asymmetric similarity", N=2, diag=1, via_setter=True, directed=True), 3000))
+    if th:
+        obs.append((ob_density, dict(name="C09|link density|N=3|directed, asymmetric similarity", N=3, diag=1, via_setter=False, directed=True), 7200))
     return obs
 
 
@@ -245,10 +251,10 @@ def replay(w):
         return bool(probs), f"S={S.tolist()} thresholds={th}: " + "; ".join(probs[:2])
     rho = float(f(w["rho"]))
     if w["via_setter"]:
-        net = ClimateNetwork(grid, S, threshold=0.5, silence_level=3)
+        net = ClimateNetwork(grid, S, threshold=0.5, directed=bool(w.get("directed")), silence_level=3)
         net.set_link_density(rho)
     else:
-        net = ClimateNetwork(grid, S, link_density=rho, silence_level=3)
+        net = ClimateNetwork(grid, S, link_density=rho, directed=bool(w.get("directed")), silence_level=3)
     theta = net.threshold()
     off = ~np.eye(N, dtype=bool)
     sim = np.abs(S.astype("float32"))
